@@ -1311,6 +1311,9 @@ func counterBindings(w *World, r *Run, pkgPath, rule string) (map[string]string,
 		if types.Identical(t, counterT.Type()) {
 			return true
 		}
+		if p, ok := t.Underlying().(*types.Pointer); ok {
+			t = p.Elem()
+		}
 		if st, ok := t.Underlying().(*types.Struct); ok {
 			for i := 0; i < st.NumFields(); i++ {
 				if types.Identical(st.Field(i).Type(), counterT.Type()) {
@@ -1397,6 +1400,24 @@ func counterBindings(w *World, r *Run, pkgPath, rule string) (map[string]string,
 					}
 				}
 				v := ev.Args[0]
+				if v.Kind == "alloc" {
+					// a pointer to a freshly built struct of counters: read what it points to at the end of the function
+					if sv, ok := s.Mem[v.key]; ok && sv.Kind == "structval" {
+						v = sv
+					} else if et := elemType(v.Typ); et != nil {
+						if st, ok := et.Underlying().(*types.Struct); ok {
+							var fvs []*Term
+							for i := 0; i < st.NumFields(); i++ {
+								if cv, ok := s.Mem[mk("faddr", st.Field(i).Name(), 0, nil, v).key]; ok {
+									fvs = append(fvs, mk("fieldval", st.Field(i).Name(), 0, nil, cv))
+								}
+							}
+							if len(fvs) > 0 {
+								v = mk("structval", typeStr(et), 0, et, fvs...)
+							}
+						}
+					}
+				}
 				if v.Kind == "structval" {
 					for _, fv := range v.Args {
 						if len(fv.Args) == 1 {
